@@ -14,7 +14,8 @@
 
 typedef kit::StdAlloc<unsigned char> Base;
 template<class T> using PA = momo::stdish::unsynchronized_pool_allocator<T, Base>;
-typedef momo::MemPool<momo::MemPoolParams<>, momo::MemManagerStd<Base>> Pool;
+template<class PP> using PoolOf = momo::MemPool<PP, momo::MemManagerStd<Base>>;
+typedef PoolOf<momo::MemPoolParams<>> Pool;
 static const int BASE_ID = 1;
 
 struct Tracer
@@ -24,15 +25,18 @@ struct Tracer
 	int nh = 0, nb = 0;
 	std::map<const void*, int> blk;                 // pointer -> model block id
 	// independent bookkeeping for the H monitor and the routing oracle
-	struct BlockInfo { Pool* pool; bool pooled; size_t bs, al; size_t rawsize; };
+	struct BlockInfo { const void* pool; bool pooled; size_t bs, al; size_t rawsize; };
+	std::string cfg = "32 16";     // compile-time pool configuration of the allocator under test: first pseudo-event "K bc cf"
 	std::map<const void*, BlockInfo> info;
 	size_t h_violations = 0, misrouted = 0, n_pool = 0, n_raw = 0, n_reparam = 0, n_events = 0;
+	size_t n_cross32 = 0, n_flush = 0, n_fromcache = 0, n_reparam_cached = 0, n_fail_events = 0, n_moves = 0, max_count = 0;   // measured
 	uint64_t a0 = 0, d0 = 0; size_t e0 = 0, l0 = 0;
 	std::string fatal;      // set when the real allocator did something after which the run cannot sensibly continue
 	std::string pending;    // the allocator call in flight (reported by the crash handler)
 
 	void reset() { events.clear(); obs.clear(); nh = nb = 0; blk.clear(); info.clear();
-		h_violations = misrouted = n_pool = n_raw = n_reparam = n_events = 0; fatal.clear(); pending.clear(); }
+		h_violations = misrouted = n_pool = n_raw = n_reparam = n_events = 0;
+		n_cross32 = n_flush = n_fromcache = n_reparam_cached = n_fail_events = n_moves = max_count = 0; fatal.clear(); pending.clear(); }
 	void pre() { kit::World& w = kit::W(); a0 = w.n_alloc; d0 = w.n_dealloc; e0 = w.errors.size(); l0 = w.log.size(); }
 	// base-allocator calls since pre(): deallocate calls that the registry rejected (unknown block) still count as calls
 	size_t allocs() const { return size_t(kit::W().n_alloc - a0); }
@@ -55,36 +59,49 @@ struct Tracer
 			if (w.log[i - 1][0] == 'D') { size_t p = w.log[i - 1].rfind(' '); return atol(w.log[i - 1].c_str() + p + 1); }
 		return -1;
 	}
-	static std::string pool_state(const std::shared_ptr<Pool>& p)
+	// MemPool's own invariant, observed from outside: the head of the free-buffer list has a free block
+	// (and the cache head is null exactly when the cached count is 0)
+	template<class PoolT> static bool pool_sane(PoolT* p)
+	{
+		if ((p->mCachedCount == 0) != (p->mCacheHead == nullptr)) return false;
+		if (p->mFreeBufferHead == nullptr) return true;
+		auto bytes = p->pvGetBufferBytes(p->mFreeBufferHead);
+		return bytes.freeBlockCount > 0 && size_t(bytes.freeBlockCount) <= PoolT::blockCount;
+	}
+	template<class PoolT> static std::string pool_state(const std::shared_ptr<PoolT>& p)
 	{
 		if (!p) return "dead";
 		return std::to_string(p.use_count()) + " " + std::to_string(p->GetAllocateCount()) + " "
-			+ std::to_string(p->GetBlockSize()) + " " + std::to_string(p->GetBlockAlignment()) + " " + std::to_string(p->mCachedCount);
+			+ std::to_string(p->GetBlockSize()) + " " + std::to_string(p->GetBlockAlignment()) + " " + std::to_string(p->mCachedCount)
+			+ " " + (pool_sane(p.get()) ? "1" : "0");
 	}
 	void ev(const std::string& e, const std::string& o)
 	{
 		if (!on) return;
 		++n_events;
-		if (!events.empty()) { events += " ; "; obs += " ; "; }
+		if (events.empty()) { events = "K " + cfg; obs = "K"; }
+		events += " ; "; obs += " ; ";
 		events += e; obs += o;
 	}
 };
 inline Tracer& G() { static Tracer t; return t; }
 
 // destroyed AFTER the PA<T> base of Mon<T>: reports what the destruction of the allocator object did
-struct PostLog
+template<class PoolT>
+struct PostLogT
 {
 	int hid = -1;
 	bool armed = false;
-	std::weak_ptr<Pool> wp;
-	~PostLog()
+	std::weak_ptr<PoolT> wp;
+	~PostLogT()
 	{
 		if (!armed) return;
 		Tracer& g = G();
-		std::shared_ptr<Pool> p = wp.lock();
+		std::shared_ptr<PoolT> p = wp.lock();
 		std::string st;
 		if (p) { st = std::to_string(p.use_count() - 1) + " " + std::to_string(p->GetAllocateCount()) + " "
-			+ std::to_string(p->GetBlockSize()) + " " + std::to_string(p->GetBlockAlignment()) + " " + std::to_string(p->mCachedCount); }
+			+ std::to_string(p->GetBlockSize()) + " " + std::to_string(p->GetBlockAlignment()) + " " + std::to_string(p->mCachedCount)
+			+ " " + (Tracer::pool_sane(p.get()) ? "1" : "0"); }
 		else { st = "dead"; wp.reset(); }   // drop the weak reference: the control block goes back to the base allocator now
 		g.ev("X " + std::to_string(hid), "- " + st + " " + std::to_string(g.allocs()) + " " + std::to_string(g.frees()) + " 1 1 1");
 	}
@@ -92,39 +109,44 @@ struct PostLog
 
 struct SoccTag {};
 
-template<class T>
-struct Mon : PostLog, PA<T>
+template<class T, class PP = momo::MemPoolParams<>>
+struct MonT : PostLogT<PoolOf<PP>>, momo::stdish::unsynchronized_pool_allocator<T, Base, PP>
 {
-	typedef PA<T> P;
+	typedef momo::stdish::unsynchronized_pool_allocator<T, Base, PP> P;
+	typedef PostLogT<PoolOf<PP>> PostLog;
+	typedef PoolOf<PP> Pool;
+	template<class U> using PAU = momo::stdish::unsynchronized_pool_allocator<U, Base, PP>;
+	using PostLog::hid; using PostLog::armed; using PostLog::wp;
 	typedef T value_type;
 	static std::string vt() { return std::to_string(sizeof(T)) + " " + std::to_string(momo::internal::ObjectAlignmenter<T>::alignment); }
 	std::string tail() const { Tracer& g = G(); return Tracer::pool_state(this->mMemPool) + " " + std::to_string(g.allocs()) + " " + std::to_string(g.frees()); }
 
-	explicit Mon(const Base& b = Base(BASE_ID)) : PostLog(), P((G().pre(), b))
+	explicit MonT(const Base& b = Base(BASE_ID)) : PostLog(), P((G().pre(), b))
 	{ hid = G().nh++; G().ev("N " + vt(), "- " + tail() + " 1 1 1"); }
-	Mon(const Mon& o) noexcept : PostLog(), P((G().pre(), static_cast<const P&>(o)))
+	MonT(const MonT& o) noexcept : PostLog(), P((G().pre(), static_cast<const P&>(o)))
 	{ hid = G().nh++; G().ev("C " + std::to_string(o.hid), "- " + tail() + " 1 1 1"); }
 	// construction from an rvalue: forwards to whatever PA<T> does for an rvalue PA<T> (in the unchanged tree: the copy constructor)
-	Mon(Mon&& o) noexcept : PostLog(), P((G().pre(), static_cast<P&&>(o)))
+	MonT(MonT&& o) noexcept : PostLog(), P((G().pre(), static_cast<P&&>(o)))
 	{
 		hid = G().nh++;
 		bool src_kept = (o.mMemPool != nullptr && o.mMemPool == this->mMemPool);
+		++G().n_moves;
 		if (!src_kept && G().fatal.empty()) G().fatal = "allocator constructed from an rvalue: the source allocator lost its pool";
 		G().ev("M " + std::to_string(o.hid), "- " + tail() + " 1 1 " + (src_kept ? "1" : "0"));
 	}
-	template<class U> Mon(const Mon<U>& o) noexcept : PostLog(), P((G().pre(), static_cast<P>(static_cast<const PA<U>&>(o))))
+	template<class U> MonT(const MonT<U, PP>& o) noexcept : PostLog(), P((G().pre(), static_cast<P>(static_cast<const PAU<U>&>(o))))
 	{ hid = G().nh++; G().ev("R " + std::to_string(o.hid) + " " + vt(), "- " + tail() + " 1 1 1"); }
-	Mon(SoccTag, const Mon& o) : PostLog(), P((G().pre(), o.P::select_on_container_copy_construction()))
+	MonT(SoccTag, const MonT& o) : PostLog(), P((G().pre(), o.P::select_on_container_copy_construction()))
 	{ hid = G().nh++; G().ev("S " + std::to_string(o.hid), "- " + tail() + " 1 1 1"); }
-	Mon& operator=(const Mon& o) noexcept
+	MonT& operator=(const MonT& o) noexcept
 	{
 		G().pre();
 		P::operator=(static_cast<const P&>(o));
 		G().ev("= " + std::to_string(hid) + " " + std::to_string(o.hid), "- " + tail() + " 1 1 1");
 		return *this;
 	}
-	~Mon() { armed = true; wp = this->mMemPool; G().pre(); }
-	Mon select_on_container_copy_construction() const { return Mon(SoccTag(), *this); }
+	~MonT() { armed = true; wp = this->mMemPool; G().pre(); }
+	MonT select_on_container_copy_construction() const { return MonT(SoccTag(), *this); }
 
 	T* allocate(size_t n)
 	{
@@ -140,13 +162,14 @@ struct Mon : PostLog, PA<T>
 					hok = false;
 		if (!hok) ++g.h_violations;
 		size_t cnt0 = pool->GetAllocateCount(); size_t bs0 = pool->GetBlockSize(), al0 = pool->GetBlockAlignment();
+		size_t cached0 = pool->mCachedCount;
 		g.pre();
 		g.pending = "A " + std::to_string(hid) + " " + std::to_string(n);
 		T* p;
 		try { p = P::allocate(n); }
 		catch (const std::bad_alloc&)
 		{	// base allocator failure: report the state the allocator is left in, then propagate
-			g.pending.clear();
+			g.pending.clear(); ++g.n_fail_events;
 			if (g.on) g.ev("F " + std::to_string(hid) + " " + std::to_string(n) + " " + std::to_string(g.allocs()),
 				"E " + tail() + " " + (hok ? "1" : "0") + " 1 1");
 			throw;
@@ -156,7 +179,13 @@ struct Mon : PostLog, PA<T>
 		bool reparam = pooled && (pool->GetBlockSize() != bs0 || pool->GetBlockAlignment() != al0);
 		std::string dest;
 		Tracer::BlockInfo bi{ pool, pooled, pool->GetBlockSize(), pool->GetBlockAlignment(), 0 };
-		if (pooled) { dest = "P" + std::to_string(pool->GetBlockSize()) + "/" + std::to_string(pool->GetBlockAlignment()); ++g.n_pool; if (reparam) ++g.n_reparam; }
+		if (pooled)
+		{
+			dest = "P" + std::to_string(pool->GetBlockSize()) + "/" + std::to_string(pool->GetBlockAlignment()); ++g.n_pool;
+			if (reparam) { ++g.n_reparam; if (cached0 > 0) ++g.n_reparam_cached; }
+			else if (cached0 > 0 && pool->mCachedCount + 1 == cached0) ++g.n_fromcache;
+			size_t c1 = pool->GetAllocateCount(); if (c1 % Pool::blockCount == 0) ++g.n_cross32; if (c1 > g.max_count) g.max_count = c1;
+		}
 		else
 		{
 			auto it = kit::W().blocks.find(p);
@@ -177,6 +206,7 @@ struct Mon : PostLog, PA<T>
 		Tracer& g = G();
 		Pool* pool = this->mMemPool.get();
 		size_t cnt0 = pool->GetAllocateCount();
+		if (pool->mCachedCount >= Pool::cachedFreeBlockCount) ++g.n_flush;
 		g.pre();
 		g.pending = "D " + std::to_string(hid) + " " + std::to_string(n);
 		P::deallocate(p, n);
@@ -200,3 +230,7 @@ struct Mon : PostLog, PA<T>
 			dest + " " + tail() + " 1 " + (routed ? "1" : "0") + " 1");
 	}
 };
+template<class T> using Mon = MonT<T, momo::MemPoolParams<>>;
+template<class T> using Mon4 = MonT<T, momo::MemPoolParams<4, 0>>;
+template<class T> using Mon1 = MonT<T, momo::MemPoolParams<1, 2>>;
+template<class T> using Mon127 = MonT<T, momo::MemPoolParams<127, 1>>;
